@@ -85,6 +85,10 @@ pub struct Inner {
     pub monitor_addr: Option<usize>,
     /// AfterNotifyAll events that were not backed by a real notification (waiters still queued)
     pub skipped_notifications: usize,
+    /// event-triggered cutoff: (kind, n-th occurrence) -> sets `trigger`
+    pub fire_on: Option<(u8, usize)>,
+    pub event_counts: [usize; 4],
+    pub trigger: Arc<std::sync::atomic::AtomicBool>,
 }
 pub struct Sched {
     pub m: Mutex<Inner>,
@@ -134,6 +138,9 @@ impl Sched {
                 release: false,
                 monitor_addr: None,
                 skipped_notifications: 0,
+                fire_on: None,
+                event_counts: [0; 4],
+                trigger: Arc::new(std::sync::atomic::AtomicBool::new(false)),
             }),
             cv: Condvar::new(),
             fringe_len: Arc::new(AtomicUsize::new(0)),
@@ -333,6 +340,18 @@ impl Sched {
                         g.in_flight -= 1;
                         g.holding_node[i] = false;
                     }
+                    let kind = match site {
+                        "notify_node_finished" => Some(0usize),
+                        "enqueue_cutset" => Some(1),
+                        "maybe_update_best" => Some(3),
+                        _ => None,
+                    };
+                    if let Some(k) = kind {
+                        g.event_counts[k] += 1;
+                        if g.fire_on == Some((k as u8, g.event_counts[k])) {
+                            g.trigger.store(true, AO::SeqCst);
+                        }
+                    }
                 }
             }
             Event::BeforeWait => {
@@ -372,6 +391,10 @@ impl Sched {
                 g.trace.push((i, "workload", kind));
                 match kind {
                     "workitem" => {
+                        g.event_counts[2] += 1;
+                        if g.fire_on == Some((2, g.event_counts[2])) {
+                            g.trigger.store(true, AO::SeqCst);
+                        }
                         g.in_flight += 1;
                         g.workitems_by_worker[i] += 1;
                         g.holding_node[i] = true;
@@ -494,6 +517,11 @@ pub struct ParCase {
     pub sched: SchedSpec,
     /// warm start: (offset below the optimum, index of the witness)
     pub primal: Option<(isize, usize)>,
+    /// event-triggered cutoff: the cutoff answers stop from the first poll after the n-th occurrence of
+    /// (0) the end of a notify_node_finished section, (1) of an enqueue_cutset section, (2) a work item
+    /// being handed out, (3) the end of a maybe_update_best section
+    #[serde(default)]
+    pub fire_on: Option<(u8, usize)>,
 }
 
 pub enum SchedOutcome {
@@ -532,6 +560,8 @@ pub fn run_scheduled(case: &ParCase, o: &Oracle, primals: Vec<(isize, Vec<ddo::D
     let sched = Sched::new(nworkers, case.sched.clone(), max_steps);
     let (tx, rx) = channel::<Msg>();
     sched.m.lock().unwrap().stuck_tx = Some(tx.clone());
+    sched.m.lock().unwrap().fire_on = case.fire_on;
+    let trigger = sched.m.lock().unwrap().trigger.clone();
     let cb_sched = sched.clone();
     verif_hooks::set_callback(Some(Arc::new(move |e| cb_sched.on_event(e))));
     let y_sched = sched.clone();
@@ -547,6 +577,7 @@ pub fn run_scheduled(case: &ParCase, o: &Oracle, primals: Vec<(isize, Vec<ddo::D
         stop_on_self_enqueue: false,
         budget: None,
         len_mirror: Some(sched.fringe_len.clone()),
+        cut_trigger: if case.fire_on.is_some() { Some(trigger) } else { None },
     };
     let t = case.t.clone();
     let o2 = o.clone();
